@@ -295,7 +295,10 @@ def generate(repo, exclude=None):
     digest = hashlib.sha256("\n".join(parts).encode()).hexdigest()[:16]
     out = [HEADER.format(digest=digest)] + parts + ["\nnamespace ExtTie"]
     for name, stmt, props, fn in theorems:
-        out.append(f"theorem {name} : {stmt} := by {PROOFS[fn]} Ext.{name}")
+        if name in CUSTOM_PROOFS:
+            out.append(f"theorem {name} : {stmt} := by\n  {CUSTOM_PROOFS[name]}")
+        else:
+            out.append(f"theorem {name} : {stmt} := by {PROOFS[fn]} Ext.{name}")
     out.append("end ExtTie\nend Rngs\n")
     return "\n".join(out), report, theorems
 
@@ -371,10 +374,58 @@ def build_units_hc(repo):
 def hc_theorems(u, done):
     return [(f"Hc128Fns.{n}", f"Ext.Hc128Fns.{n} = Hc128.{n}", ["C02"], n) for n in ("f1", "f2") if n in done]
 
+# rand_jitter, timer monad: (statement, property ids, proof script).  E = Ext.JitterRng, J = Jitter (the model), T = Jitter.TM (Lib/ExtTieJitter)
+_MONAD = "bind_assoc, pure_bind"
+JITTER_TM = {
+    "random_loop_cnt": ("∀ (st : Jitter.Rng) (n : BitVec 32), n.toNat < 64 → Ext.JitterRng.random_loop_cnt st n = "
+                        "(do let r ← Jitter.randomLoopCnt st n.toNat; pure (r, st))", ["C12"],
+                        "intro st n h\n  unfold Ext.JitterRng.random_loop_cnt Jitter.randomLoopCnt\n"
+                        "  simp only [Nat.mod_eq_of_lt h, bind_assoc, pure_bind, Jitter.TM.rlc_folds n h]\n  rfl"),
+    "lfsr_time": ("∀ st time b, Ext.JitterRng.lfsr_time st time b = Jitter.lfsrTime st time b", ["C12"],
+                  "intro st time b\n  unfold Ext.JitterRng.lfsr_time Jitter.lfsrTime\n"
+                  "  simp only [JitterRng.random_loop_cnt st 4#32 (by decide), JitterLfsr.lfsr, bind_assoc, pure_bind]\n  cases b <;> simp"),
+    "memaccess": ("∀ st b, Ext.JitterRng.memaccess st b = Jitter.memaccess st b", ["C12"],
+                  "intro st b\n  exact Jitter.TM.memaccess_tie Ext.JitterRng.random_loop_cnt (fun st => JitterRng.random_loop_cnt st 4#32 (by decide)) st b"),
+    "measure_jitter": ("∀ st ec, Ext.JitterRng.measure_jitter st ec = "
+                       "(do let r ← Jitter.measureJitter st ec; pure (if r.1 then some () else none, r.2.1, r.2.2))", ["C12"],
+                       "intro st ec\n  unfold Ext.JitterRng.measure_jitter Jitter.measureJitter\n"
+                       "  simp only [JitterRng.memaccess, JitterRng.lfsr_time, EcState.stuck, bind_assoc, pure_bind]\n"
+                       "  congr 1; funext a; congr 1; funext t; congr 1; funext b\n  split <;> simp"),
+    "gen_entropy": ("∀ st, Ext.JitterRng.gen_entropy st = Jitter.genEntropy st", ["C12"],
+                    "intro st\n  exact Jitter.TM.gen_entropy_tie Ext.JitterRng.measure_jitter JitterRng.measure_jitter "
+                    "Ext.JitterRng.stir_pool JitterRng.stir_pool st"),
+    "test_timer": ("∀ st, (do let r ← Ext.JitterRng.test_timer st; pure (r.1.map BitVec.toNat, r.2)) = Jitter.testTimer st", ["C12", "C13"],
+                   "intro st\n  exact Jitter.TM.test_timer_tie Ext.JitterRng.memaccess JitterRng.memaccess Ext.JitterRng.lfsr_time "
+                   "JitterRng.lfsr_time Ext.EcState.stuck EcState.stuck st"),
+    "timer_stats": ("∀ st b, Ext.JitterRng.timer_stats st b = Jitter.timerStats st b", ["C12"],
+                    "intro st b\n  unfold Ext.JitterRng.timer_stats Jitter.timerStats\n"
+                    "  simp only [JitterRng.memaccess, JitterRng.lfsr_time, bind_assoc, pure_bind]"),
+    "set_rounds": ("∀ st (r : BitVec 8), Ext.JitterRng.set_rounds st r = Jitter.setRounds st r.toNat", ["C12"],
+                   "intro st r\n  simp only [Ext.JitterRng.set_rounds, Jitter.setRounds, gt_iff_lt, BitVec.lt_def, decide_eq_true_eq, "
+                   "BitVec.toNat_ofNat, Nat.zero_mod]\n  rfl"),
+    "new_with_timer": ("Ext.JitterRng.new_with_timer = Jitter.newWithTimer", ["C12"], "first | rfl | decide"),
+    "clone": ("Ext.JitterRng.clone = Jitter.clone", ["C12", "C05", "C16"], "first | rfl | (funext st; rfl)"),
+    "next_u64": ("∀ st, Ext.JitterRng.next_u64 st = Jitter.nextU64 st", ["C12", "C05", "C16"],
+                 "intro st\n  unfold Ext.JitterRng.next_u64 Jitter.nextU64\n  simp only [JitterRng.gen_entropy, bind_assoc, pure_bind]\n"
+                 "  first | rfl | simp"),
+    "next_u32": ("∀ st, Ext.JitterRng.next_u32 st = Jitter.nextU32 st", ["C12", "C05", "C16"],
+                 "intro st\n  unfold Ext.JitterRng.next_u32 Jitter.nextU32\n  simp only [JitterRng.next_u64, bind_assoc, pure_bind]\n"
+                 "  split <;> simp"),
+    "fill_bytes": ("∀ st n, Ext.JitterRng.fill_bytes st n = Jitter.fill n st", ["C12", "C05", "C16"],
+                   "intro st n\n  exact Jitter.TM.fill_tie Ext.JitterRng.next_u32 JitterRng.next_u32 Ext.JitterRng.next_u64 JitterRng.next_u64 st n"),
+}
+CUSTOM_PROOFS = {}
+
 def jitter_theorems(u, done):
     th = []
     if u.name == "JitterRng" and "stir_pool" in done:
         th.append(("JitterRng.stir_pool", "∀ st, Ext.JitterRng.stir_pool st = { st with data := Jitter.stir st.data }", ["C12", "C15"], "stir_pool"))
+    if u.name == "JitterRng":
+        for fn in done:
+            if fn in JITTER_TM:
+                stmt, props, proof = JITTER_TM[fn]
+                th.append((f"JitterRng.{fn}", stmt, props, fn))
+                CUSTOM_PROOFS[f"JitterRng.{fn}"] = proof
     if u.name == "JitterLfsr" and "lfsr" in done:
         th.append(("JitterLfsr.lfsr", "Ext.JitterLfsr.lfsr = Jitter.lfsr", ["C12", "C15"], "lfsr"))
     if u.name == "EcState" and "stuck" in done:
